@@ -352,6 +352,38 @@ def bounded(tier, seed):
                     return None
                 run.case('C04:stack_files (legacy functional form)', (si, d, k), t2)
     # multi-file open helpers
+    # stack_files with coordinate keys: a COORDINATE variable without the stacked dimension (named in coordkeys, explicitly or through
+    # getCoords) that differs between the files comes from the FIRST file, like every other variable without that dimension
+    def lev_file(j):
+        f = P.PseudoNetCDFFile()
+        f.createDimension('time', 2)
+        f.createDimension('lev', 3)
+        f.createVariable('time', 'd', ('time',), values=np.arange(2.) + 2 * j, units='hours since 2000-01-01')
+        f.createVariable('lev', 'd', ('lev',), values=np.array([1000., 850., 500.]) - 100. * j, units='hPa', note='file %d' % j)
+        f.createVariable('aux', 'd', ('lev',), values=np.array([1., 2., 3.]) * (j + 1), units='1')
+        f.createVariable('T', 'f', ('time', 'lev'), values=(np.arange(6.).reshape(2, 3) + 10 * j).astype('f'), units='K')
+        return f
+    for ck in (None, ['time', 'lev'], ['lev'], []):
+        def t_ck(ck=ck):
+            import warnings
+            from PseudoNetCDF.core._functions import stack_files
+            fs = [lev_file(j) for j in range(3)]
+            if ck is None:
+                for x in fs:
+                    x.setCoords(['time', 'lev'])
+            with warnings.catch_warnings():
+                warnings.simplefilter('ignore')
+                g = stack_files(fs, 'time') if ck is None else stack_files(fs, 'time', coordkeys=ck)
+            for vk in ('lev', 'aux'):
+                if not np.array_equal(np.asarray(g.variables[vk][...]), np.asarray(fs[0].variables[vk][...])):
+                    return 'variable %s (no stacked dimension) is %r, the first file has %r' % (vk, np.asarray(g.variables[vk][...]).tolist(), np.asarray(fs[0].variables[vk][...]).tolist())
+            if getattr(g.variables['lev'], 'note', None) != 'file 0':
+                return 'attributes of lev come from %r, not from the first file' % getattr(g.variables['lev'], 'note', None)
+            exp = np.concatenate([np.asarray(x.variables['T'][...]) for x in fs], axis=0)
+            if not np.array_equal(np.asarray(g.variables['T'][...]), exp):
+                return 'stacked variable T differs from the concatenation'
+            return None
+        run.case('C04:stack_files with coordinate keys', repr(ck), t_ck)
     # variables of other kinds: fixed-width text (bytes and unicode), integers of several widths, booleans -- the stacked variable keeps
     # the element type of the pieces and every value; a text variable without the stacked dimension equals the first file's
     def typed_file(n, off):
